@@ -307,7 +307,8 @@ func outputsOf(d *SimDisk, outID string) map[string][]byte {
 	m := map[string][]byte{}
 	for _, p := range d.Paths() {
 		base := p[strings.LastIndexByte(p, '/')+1:]
-		if len(base) > 1 && strings.HasPrefix(base[1:], outID) {
+		// <kind letter><output id>.<extension>: the id must match as a whole (ids of a batch may be prefixes of each other)
+		if len(base) > 1 && strings.HasPrefix(base[1:], outID+".") {
 			m[base] = d.Get(p).Data
 		}
 	}
@@ -654,7 +655,7 @@ func checkBatchOutcome(sc *Scenario, order []int, refs []*lineRef, out *BatchOut
 		oid := outIDOf(sc, li)
 		for _, p := range out.OpensBy[id] {
 			base := p[strings.LastIndexByte(p, '/')+1:]
-			if !(len(base) > 1 && strings.HasPrefix(base[1:], oid)) {
+			if !(len(base) > 1 && strings.HasPrefix(base[1:], oid+".")) {
 				add("own-files", "run-opened-foreign-file", fmt.Sprintf("run %s (output id %s) opened %s", id, oid, p), id)
 			}
 		}
@@ -1104,6 +1105,7 @@ func execRealBinary(sc *Scenario, env *Env, root string, refs []*lineRef, order 
 	}
 	bf := filepath.Join(root, "batch.txt")
 	os.WriteFile(bf, []byte(strings.Join(batchLinesText(sc, order, false), "\n")+"\n"), 0o644)
+	leftovers := map[string]string{} // planted files that are no result files of this session: ignored while untouched
 	once := func() (*BatchOutcome, string) {
 		// stale files
 		for i := range sc.Lines {
@@ -1113,6 +1115,14 @@ func execRealBinary(sc *Scenario, env *Env, root string, refs []*lineRef, order 
 					os.MkdirAll(filepath.Dir(p), 0o755)
 					os.WriteFile(p, append(append([]byte{}, data...), []byte("STALE RECORD OF AN EARLIER SESSION\r\nSTALE\r\n")...), 0o644)
 					res.add("fault.stale-file-real-disk", 1)
+					if r.Bool(0.5) {
+						// what a killed session may leave beside it: temporary siblings of the result file, longer than the result
+						for _, suf := range []string{".part", ".tmp"} {
+							junk := append(append([]byte{}, data...), bytes.Repeat([]byte("LEFT BY A KILLED SESSION\r\n"), 40)...)
+							os.WriteFile(p+suf, junk, 0o644)
+							leftovers[p+suf] = string(junk)
+						}
+					}
 				}
 			}
 		}
@@ -1204,6 +1214,9 @@ func execRealBinary(sc *Scenario, env *Env, root string, refs []*lineRef, order 
 			ents, _ := os.ReadDir(dir)
 			for _, e := range ents {
 				if b, rerr := os.ReadFile(filepath.Join(dir, e.Name())); rerr == nil {
+					if junk, ok := leftovers[filepath.Join(dir, e.Name())]; ok && junk == string(b) {
+						continue // an untouched leftover of the earlier session
+					}
 					disk.Plant(dir+"/"+e.Name(), b)
 				}
 			}
